@@ -16,7 +16,8 @@ def make(rng, transition_only=False, n_states=None, n_events=None, limits='mixed
     for i in range(nS):
         kind = {'mixed': int(rng.randint(4)), 'none': 0}[limits]
         hi = float(x0[i] + rng.randint(2, 12))
-        lims.append([None, (0, None), (0, hi), (1, hi)][kind])
+        lo = 1 if x0[i] >= 1 else 0       # the start lies inside the declared limits (the property's premise), also for an empty compartment
+        lims.append([None, (0, None), (0, hi), (lo, hi)][kind])
     theta = rng.uniform(0.2, 1.5, size=len(spec['params']))
     return spec, x0, lims, theta
 
